@@ -18,14 +18,16 @@ BIN = os.path.join(vlib.CACHE, "target-locks", "debug", "c09")
 RUN = os.path.join(vlib.CACHE, "run", "C09")
 
 THEOREMS = {"Properties.C09": ["C09_quiescent_exact", "C09_recover_any_time", "C09_stale_snapshot_never_wins",
-                               "C09_stale_snapshot_skips", "C09_no_duplicate_effect", "C09_nonvacuous",
-                               "C09_capture_excluded"]}
+                               "C09_stale_snapshot_skips", "C09_no_duplicate_effect", "C09_same_file_id_refuted",
+                               "C09_nonvacuous", "C09_capture_excluded"]}
+KNOWN_ID = "C09-snapshot-file-id-collision"
 PINS = {"Properties.C09": {
-    "_preamble": "From Coq Require Import List NArith Bool Sorted. From Kyro Require Import Model.Amap Model.Conc09 Proofs.Conc09Proofs. Open Scope N_scope.",
-    "C09_quiescent_exact": "forall (c : cfg) (sched : list ev) (st : state), crun c init sched = Some st -> all_done st = true -> recover (disk_of st) = Some (st_store st)",
-    "C09_recover_any_time": "forall (c : cfg) (sched : list ev) (st : state), crun c init sched = Some st -> recover (disk_of st) = Some (apply_entries (st_store st) (in_flight st))",
-    "C09_stale_snapshot_never_wins": "forall (c : cfg) (sched0 : list ev) (st : state) (sched : list ev) (st' : state), crun c init sched0 = Some st -> crun c st sched = Some st' -> ptr_seq (st_man st) <= ptr_seq (st_man st')",
-    "C09_no_duplicate_effect": "forall (c : cfg) (sched : list ev) (st : state), crun c init sched = Some st -> exists (last : N) (docs : store) (es : list entry), read_segs (st_files st) (m_segs (st_man st)) = Some es /\\ recover (disk_of st) = Some (apply_entries docs (filter (fun e => negb (covered last e)) es)) /\\ StronglySorted N.lt (map e_seq es)",
+    "_preamble": "From Coq Require Import List NArith Bool Sorted. From Kyro Require Import Model.Amap Model.Conc09 Proofs.Conc09Proofs. Import ListNotations. Open Scope N_scope.",
+    "C09_quiescent_exact": "forall (c : cfg) (sched : list ev) (st : state), distinct_ids c -> crun c init sched = Some st -> all_done st = true -> recover (disk_of st) = Some (st_store st)",
+    "C09_recover_any_time": "forall (c : cfg) (sched : list ev) (st : state), distinct_ids c -> crun c init sched = Some st -> recover (disk_of st) = Some (apply_entries (st_store st) (in_flight st))",
+    "C09_stale_snapshot_never_wins": "forall (c : cfg) (sched0 : list ev) (st : state) (sched : list ev) (st' : state), distinct_ids c -> crun c init sched0 = Some st -> crun c st sched = Some st' -> ptr_seq (st_man st) <= ptr_seq (st_man st')",
+    "C09_same_file_id_refuted": "exists (c : cfg) (sched : list ev) (st : state), ~ distinct_ids c /\\ crun c init sched = Some st /\\ all_done st = true /\\ st_store st = [(1, (1, 1)); (2, (2, 2))] /\\ st_man st = mkMan (Some (4, 2)) [3] /\\ st_snaps st = [(4, (1, [(1, (1, 1))]))] /\\ recover (disk_of st) = None",
+    "C09_no_duplicate_effect": "forall (c : cfg) (sched : list ev) (st : state), distinct_ids c -> crun c init sched = Some st -> exists (last : N) (docs : store) (es : list entry), read_segs (st_files st) (m_segs (st_man st)) = Some es /\\ recover (disk_of st) = Some (apply_entries docs (filter (fun e => negb (covered last e)) es)) /\\ StronglySorted N.lt (map e_seq es)",
 }}
 
 
@@ -113,12 +115,45 @@ def run_driver(out, n, seed, extra=(), timeout=3000):
     return rc, o, summ
 
 
+def run_probe(ctx, trials, tag="probe"):
+    """Directed generator for the known class: two snapshots released together after their captures.
+    Returns the probe's json (stops at the first oracle failure)."""
+    out = RUN + "_" + tag
+    shutil.rmtree(out, ignore_errors=True)
+    os.makedirs(out, exist_ok=True)
+    rc, o = vlib.sh([BIN, "--out", out, "--n", "0", "--probe-fileid", str(trials)], env={"VERIF_SEED": str(ctx.seed)}, timeout=3000)
+    ctx.log(tag + ".log", o)
+    try:
+        return json.load(open(os.path.join(out, "probe.json")))
+    except Exception:
+        return {"trials": 0, "oracle_failures": [], "error": o[-800:]}
+
+
+def classify_probe_failure(f):
+    """The specific input class of the finding: both racing snapshots used ONE file name (only the warm-up
+    snapshot and one more file exist, or the pointer's file holds an older sequence than the manifest says)."""
+    rec = f.get("recovered")
+    txt = json.dumps(rec)
+    return KNOWN_ID if ("manifest committed a snapshot at sequence" in txt or "snapshot" in txt.lower()) and len(f.get("snapshots", [])) <= 2 else None
+
+
+def handle_probe(ctx, probe):
+    for f in probe.get("oracle_failures", [])[:1]:
+        kid = classify_probe_failure(f)
+        known = ctx.classify_known(kid) if kid else None
+        if known:
+            ctx.known_hit(known, "reproduced in trial %d of the same-instant two-snapshot probe: %s" % (f.get("trial", -1), json.dumps(f.get("recovered"))[:160]))
+        else:
+            ctx.violation({"property": "C09", "kind": "fileid-probe", "why": "after two racing snapshots returned, strict recover on a copy differs from the live census",
+                           "detail": f, "replay_cmd": "./check C09 --replay <this file>   (repeats the probe up to 2000 trials)"})
+
+
 def run(ctx):
     n = 20 if ctx.tier == "quick" else 1000
     ctx.trusted += [
         "Model/Conc09.v is hand-written: the atomic steps are the critical sections of hnsw_backend.rs in the code's order; the granularity (what is atomic) is justified by the locks the code holds, which the skeleton correspondence re-reads from the real engine on every run (lock classes, modes, order, per call and per branch)",
         "the patched parking_lot / lock_api recorder and gate table (harness/vendor) report every lock operation of the engine",
-        "file ids are distinct (the model draws them from a counter; the code uses file_id() = microsecond clock without a tie-break)",
+        "theorems assume distinct file ids (premise distinct_ids); the code uses file_id() = microsecond clock without a tie-break: known finding C09-snapshot-file-id-collision, refuted in the model (C09_same_file_id_refuted) and reproduced on the real engine by the probe",
         "not modelled: I/O errors, the disk-space check, legacy seq_no = 0 entries, fsync (no crash in this property), update_metadata with merge = true, the HNSW graph",
         "real preemption at arbitrary instructions is NOT exhibited: only the interleavings of lock-delimited steps are proved; the directed schedules and the stress runs sample the real engine",
     ]
@@ -143,6 +178,12 @@ def run(ctx):
             ctx.cov.update({"evaluations": 50, "distinct_nontrivial": 1, "rule": "replay of one stress case, up to 50 attempts (the schedule is chosen by the OS)", "replay_failures": len(fails)})
             if fails:
                 ctx.violation(rep)
+            return
+        if rep.get("kind") == "fileid-probe":
+            probe = run_probe(ctx, 2000, "probe_replay")
+            ctx.cov.update({"evaluations": probe.get("trials", 0), "distinct_nontrivial": len(probe.get("oracle_failures", [])),
+                            "rule": "replay of the same-instant two-snapshot probe until the first failure"})
+            handle_probe(ctx, probe)
             return
         # directed replays: the schedules are fixed; fall through to the normal run
 
@@ -191,6 +232,14 @@ def run(ctx):
         "samples": [{k: s[k] for k in ("id", "equal", "live", "snapshot_seq", "segments", "snap_contended", "manifest_contended")} for s in stress["samples"][:2]],
         "oracle_failures": len(stress["failures"]) + sum(1 for d in dir_bad if not d["census_equal"]),
     })
+
+    # --- directed generator for the known class (file-id collision of two racing snapshots)
+    probe = run_probe(ctx, 25 if ctx.tier == "quick" else 800)
+    ctx.say("file-id probe: %d trials, %d failures" % (probe.get("trials", 0), len(probe.get("oracle_failures", []))))
+    ctx.cov["fileid_probe_trials"] = probe.get("trials", 0)
+    ctx.cov["fileid_probe_failures"] = len(probe.get("oracle_failures", []))
+    ctx.cov["evaluations"] += probe.get("trials", 0)
+    handle_probe(ctx, probe)
 
     # --- decide: oracle failures first
     for f in stress["failures"][:1]:
